@@ -517,11 +517,12 @@ def plain_state(st):
 
 def plans(tier):
     quick = tier == 'quick'
-    mc = [dict(scalars='ScalarsOne', conts='ContsEmpty', keys='KeysA', sliceb='SliceBSmall', maxlen=2, maxseq=1,
-               docs='DocsMC0' if quick else 'DocsMC1', mc=True)]
-    if not quick:
-        mc.append(dict(scalars='ScalarsTwo', conts='ContsNone', keys='KeysA', sliceb='SliceBMid', maxlen=2, maxseq=2,
-                       docs='DocsIntArr2', mc=True))
+    if quick:
+        mc = [dict(scalars='ScalarsOne', conts='ContsEmpty', keys='KeysA', sliceb='SliceBSmall', maxlen=1, maxseq=1, docs='DocsMC0', mc=True),
+              dict(scalars='ScalarsTwo', conts='ContsNone', keys='KeysA', sliceb='SliceBSmall', maxlen=2, maxseq=1, docs='DocsIntArr2', mc=True)]
+    else:
+        mc = [dict(scalars='ScalarsOne', conts='ContsEmpty', keys='KeysA', sliceb='SliceBSmall', maxlen=2, maxseq=1, docs='DocsMC1', mc=True),
+              dict(scalars='ScalarsTwo', conts='ContsNone', keys='KeysA', sliceb='SliceBMid', maxlen=2, maxseq=2, docs='DocsIntArr2', mc=True)]
     sim = [
         ('json', dict(spec='SimSpec', scalars='ScalarsJson', conts='ContsJson', keys='KeysAB', sliceb='SliceBMid', maxlen=3,
                       maxseq=2, docs='DocsSim', burst=3), 150 if quick else 1500, 30),
@@ -547,6 +548,9 @@ def run(ctx):
         raise MachineryError('KeyOrder of JsonDoc.tla is not Python\'s string order')
     mc, sim, graph = plans(ctx.tier)
     workers = 4
+    import time
+    t0 = time.time()
+    phases = {}
 
     # 1. the machine's own properties
     states = transitions = 0
@@ -555,6 +559,7 @@ def run(ctx):
         states += res.distinct
         transitions += res.generated
 
+    phases['model_checking'] = round(time.time() - t0, 1)
     env = Env(ctx)
     stats_all = {}
     behaviours_done = 0
@@ -581,6 +586,7 @@ def run(ctx):
                 jobs.append((kind, how, behaviours))
                 states += d
                 transitions += g
+        phases['generation'] = round(time.time() - t0 - phases['model_checking'], 1)
         # 3. replay
         for kind, how, behaviours in jobs:
             rp = Replayer(ctx, env, kind)
@@ -622,6 +628,7 @@ def run(ctx):
         'behaviours_checked_against_cpython': plain_checked,
         'operations_observed_in_isolation': len(direct),
         'per_source': stats_all,
+        'phase_seconds': dict(phases, total=round(time.time() - t0, 1)),
         'checker_cmd': 'tlc JsonDoc (Spec: invariants + action properties; SimSpec -simulate; -dump dot episodes)',
     })
     ctx.assumptions += [
